@@ -144,16 +144,27 @@ def check(x):
     ref_time = {}
     static = not isinstance(COUNTS[p["count"]], tuple)
     cancelled = set()
+    last_returned = ["unset"]
+    thread_limit = ["unset"]
     for e in log:
         k = e["kind"]
-        if k == "base.submit":
+        if k == "count.call":
+            # "the value the count callable most recently returned to the executor; if it raises, the last
+            # value stays in force": the executor keeps one shared last value, the hand-over thread decides
+            # with what its own latest evaluation gave it
+            if e["out"] != "raise":
+                last_returned[0] = e["out"]
+            if e["th"].startswith("ThrottleExecutor"):
+                thread_limit[0] = last_returned[0]
+        elif k == "base.submit":
             inflight += 1
-            lim = limit_at(p, e["t"], log, e["seq"])
-            if lim is None:
+            if static:
+                lim = limit_at(p, e["t"], log, e["seq"])
+            else:
+                lim = thread_limit[0]
+                x.require(lim != "unset", "hand-over-without-evaluating-count")
+            if lim is None or lim == "unset":
                 lim = unlimited
-            if p["count"] == "raise":
-                lim = max(lim, 2) if e["t"] >= 2.5 else lim     # after a raise the last good value (1 or 2) holds
-                lim = 2 if e["t"] >= 2.5 else 1
             handed.append((e["args"][0], e["t"], e["seq"]))
             x.require(inflight <= lim, "limit-exceeded", count=p["count"],
                       detail="hand-over of %s at t=%r makes %d in flight, limit %r" % (e["args"][0], e["t"], inflight, lim))
@@ -195,7 +206,7 @@ def check(x):
             if q and infl < lim:
                 ref_time.setdefault(q[0], e["t"])
         for (tg, t, _) in handed:
-            if tg in ref_time:
+            if tg in ref_time and not x.jump:
                 x.require(t <= ref_time[tg] + TOL, "idle-capacity",
                           detail="%s handed over at %r, eligible since %r" % (tg, t, ref_time[tg]),
                           lateness=round(t - ref_time[tg], 2))
